@@ -1510,6 +1510,17 @@ def c12(prop, tier, seed, work):
         violations.append((path, "a request of the sequential workload did not return"))
     progs, configs, nseg = lock_programs(tf)
     nevents = sum(1 for _ in open(tf))
+    if violations:
+        # the sequential workload itself hangs: nothing more to learn from the model
+        rec = [c for c in configs if c.get("hung", 0) > 0]
+        waits = sorted({"%s>%s" % (h["class"], s["wants"]["class"]) for c in rec for s in (c.get("stuck") or []) for h in (s["holds"] or [])})
+        vlib.write_evidence(prop, tier, seed, "model_checking", {"states": 1, "transitions": 1, "traces_validated_against_impl": len(progs), "sync_events_recorded": nevents,
+                            "rule": "the recorded sequential workload did not complete", "samples": [], "exhaustive": False, "failures": [v[1] for v in violations]},
+                            ASSUME_COMMON[:2], time.time() - t0, len(violations))
+        for path, what in violations:
+            print("VIOLATION property=%s replay=%s" % (prop, path))
+            log("  %s; wait-for edges %s" % (what, waits))
+        return 1
     if len(progs) < 20:
         raise Inconclusive("only %d nested thread programs were extracted" % len(progs))
     pf = work.path("progs.ndjson")
